@@ -151,6 +151,8 @@ def judge(problems: List[str], host_name: str, w: World, queries: List[Query], t
     trace = [Decoded(s) for s in w.net.trace if s.host == host_name]
     answers: List[Tuple[float, Set[tuple], Decoded]] = []
     for d in trace:
+        if any(r[0] == "SRV" and str(r[7]).lower() == "h9.local." for r in d.msg.records()):
+            continue  # the unsolicited announcements of an update (scenarios with 'update_after'): not replies
         if d.multicast and d.is_response and d.t_ms >= t_begin:
             ids = [key(ident(r)) for r in d.msg.records() if r[0] != "RAW"]
             if len(ids) != len(set(ids)):
@@ -227,6 +229,13 @@ def points(tier: str) -> List[Dict[str, Any]]:
         for gs in itertools.product(gaps3, repeat=2):
             for js in (((0.0, 1.0, 0.0), (1.0, 0.0, 0.5)) if tier == "quick" else jit[::4]):
                 pts.append({"fam": "multi", "kinds": list(ks), "gaps": list(gs), "age": 5000, "jitter": list(js)})
+    # a service sharing the asked host name is moved away by an update while the answer is waiting (aggregation delay, or the
+    # one-second protection)
+    for kind in ("srv+a", "ptr+txt", "ptr"):
+        for age in (5000, 500):
+            for upd in (5, 15, 130):
+                for js in ((0.0,), (1.0,)):
+                    pts.append({"fam": "multi", "kinds": [kind], "gaps": [], "age": age, "jitter": list(js), "update_after": upd})
     # five queries: the same answer asked again while its first batch is still being held, so that groups emptied by the
     # send (an answer is never duplicated within a batch) sit at the head of the queue when another question arrives
     for g1, g2, g4 in itertools.product((0, 1), (390, 450, 499), (400, 450, 499, 520)):
@@ -304,6 +313,12 @@ def _run_point(p: Dict[str, Any], verbose: bool = False) -> Tuple[Optional[Dict[
                 data = wire.query([("Q", nm, ty, 1) for nm, ty in qs], authorities=auth, id_=n + 1)
                 queries.append(Query(t, qs, probe))
                 script.append((t, data, "10.0.0.99"))
+            if p.get("update_after") is not None:
+                # while the answers wait in a queue, another service that shares the host name is moved to a host of its own by
+                # an update: what was queued for the host name stays due (its other user is still registered)
+                moved = Svc(S2.type, S2.name, "h9.local.", S2.port, S2.text, [bytes([10, 0, 0, 9])], [])
+                w.loop.call_at((t_begin + p["update_after"]) / 1000,
+                               lambda: w.spawn(host.zc.async_update_service(make_info(moved, None))))
             drive(w, host, script, t + 2500)
             floor = None
             if fam == "single":
